@@ -160,3 +160,60 @@ Theorem C17_fold_free_checked_case_partial : forall c : tcase, check_ok c = true
    (forall f, In f (c_faces c) -> 0 < face_det p f) \/ (forall f, In f (c_faces c) -> face_det p f < 0)).
 Proof. exact check_ok_establishes. Qed.
 Print Assumptions C17_fold_free_checked_case_partial.
+
+(* convexity of the targets.  Circle (over R): any three border points with increasing parameters are strictly
+   counter-clockwise - the border polygon is strictly convex *)
+Theorem C17_border_circle_strictly_convex : forall n i j k : Z,
+  (0 < n)%Z -> (0 <= i)%Z -> (i < j)%Z -> (j < k)%Z -> (k < n)%Z ->
+  Rdefinitions.Rlt (Rdefinitions.IZR 0)
+    (det3 (circle_point (Q2R (circle_turn n i))) (circle_point (Q2R (circle_turn n j))) (circle_point (Q2R (circle_turn n k)))).
+Proof. exact circle_border_strictly_convex. Qed.
+Print Assumptions C17_border_circle_strictly_convex.
+
+(* Square, every border length n >= 3: three border vertices in border order never turn clockwise, and are collinear
+   only if all three lie on one side of the square (the flat-triangle caveat of the property text) *)
+Theorem C17_border_square_weakly_convex : forall n v w x : Z,
+  (3 <= n)%Z -> (0 <= v)%Z -> (v < w)%Z -> (w < x)%Z -> (x < n)%Z ->
+  let P := fun k => (sq_U n k, sq_V n k) in
+  0 <= orient_det (P v) (P w) (P x) /\ (orient_det (P v) (P w) (P x) == 0 -> same_side (P v) (P w) (P x)).
+Proof. exact sq_border_convex. Qed.
+Print Assumptions C17_border_square_weakly_convex.
+
+(* maximum principle in hull form: [in_hull pts x] = x lies in every closed half-plane containing pts (for finite pts
+   this is the closed convex hull; the inclusion "convex combinations are in it" is C17_hull_contains_combinations) *)
+Theorem C17_max_principle_hull_partial : forall fs use_cotan cot free bnd U V Ub Vb,
+  NoDup (free ++ bnd) -> length Ub = length bnd -> length Vb = length bnd ->
+  let T := lap_triplets fs use_cotan cot in
+  is_solution_U T free bnd Ub Vb U -> is_solution_V T free bnd Ub Vb V ->
+  let p := pos free bnd U V Ub Vb in
+  let N := fun i => nbrs 0 fs (cot_opt use_cotan cot) i in
+  (forall i j w, In i free -> In (j, w) (N i) -> 0 < w) ->
+  (forall i j w, In i free -> In (j, w) (N i) -> In j free \/ In j bnd) ->
+  (forall i, In i free -> linked N bnd i) ->
+  forall i, In i free -> in_hull (map p bnd) (p i).
+Proof. exact max_principle_hull. Qed.
+Print Assumptions C17_max_principle_hull_partial.
+
+(* uniform weights (the generated 1/2): no positivity hypothesis is left *)
+Theorem C17_max_principle_uniform_partial : forall fs cot free bnd U V Ub Vb,
+  NoDup (free ++ bnd) -> length Ub = length bnd -> length Vb = length bnd ->
+  let T := lap_triplets fs false cot in
+  is_solution_U T free bnd Ub Vb U -> is_solution_V T free bnd Ub Vb V ->
+  let p := pos free bnd U V Ub Vb in
+  let N := fun i => nbrs 0 fs (cot_opt false cot) i in
+  (forall i j w, In i free -> In (j, w) (N i) -> In j free \/ In j bnd) ->
+  (forall i, In i free -> linked N bnd i) ->
+  forall i, In i free -> in_hull (map p bnd) (p i).
+Proof. exact max_principle_uniform. Qed.
+Print Assumptions C17_max_principle_uniform_partial.
+
+Theorem C17_hull_contains_combinations : forall pts l,
+  (forall w y, In (w, y) l -> 0 <= w /\ In y pts) -> wtot l == 1 -> in_hull pts (comb l).
+Proof. exact hull_contains_combinations. Qed.
+Print Assumptions C17_hull_contains_combinations.
+
+Theorem C17_hull_in_unit_square : forall pts x,
+  (forall y, In y pts -> 0 <= fst y /\ fst y <= 1 /\ 0 <= snd y /\ snd y <= 1) -> in_hull pts x ->
+  0 <= fst x /\ fst x <= 1 /\ 0 <= snd x /\ snd x <= 1.
+Proof. exact hull_in_box. Qed.
+Print Assumptions C17_hull_in_unit_square.
